@@ -85,6 +85,7 @@ func BuildStructCodec(p CodecBuilder, registry CodecRegistry, typ reflect.Type, 
 			wantIntern = true
 		}
 
+		verifYield("struct.field")
 		fc, err := p.CodecForTypeRegistry(registry, sf.Type, postfix)
 		if err != nil {
 			return nil, fmt.Errorf("failed to find codec for field %d (%s, %q) of %s. %w", i, sf.Name, postfix, typ.Name(), err)
@@ -102,9 +103,11 @@ func BuildStructCodec(p CodecBuilder, registry CodecRegistry, typ reflect.Type, 
 		if sf.Type.Kind() == reflect.Map {
 			field.deref = true
 		}
+		verifYield("struct.fieldDone")
 	}
 	c.fields = c.fields[:count]
 
+	verifYield("struct.index")
 	c.fieldsByIndex = make([]shortDesc, maxIndex+1)
 	for _, f := range c.fields {
 		if c.fieldsByIndex[f.index].codec != nil {
@@ -116,6 +119,7 @@ func BuildStructCodec(p CodecBuilder, registry CodecRegistry, typ reflect.Type, 
 		}
 	}
 
+	verifYield("struct.done")
 	return &c, nil
 }
 
@@ -164,6 +168,7 @@ func (c *StructCodec) size(ptr unsafe.Pointer) (size int) {
 
 func (c *StructCodec) append(data []byte, ptr unsafe.Pointer) []byte {
 	for _, field := range c.fields {
+		verifYield("struct.append")
 		fptr := unsafe.Pointer(uintptr(ptr) + field.offset)
 		if field.deref {
 			fptr = *(*unsafe.Pointer)(fptr)
@@ -182,6 +187,7 @@ func (c *StructCodec) Read(data []byte, ptr unsafe.Pointer, wt plenccore.WireTyp
 
 	var offset int
 	for offset < l {
+		verifYield("struct.read")
 		wt, index, n := plenccore.ReadTag(data[offset:])
 		offset += n
 
